@@ -48,7 +48,11 @@ RULE = (
     "ValueError stream); pLSCF normal equations on the code's own Omega floats (orders <= 3, <= 3 channels, 1e-7 with "
     "cond(M22) guard). oracle: exact rational spectra B(z)A(z)^-1 built from random real A, B; denominators vs normalised "
     "truth, order-n pole column vs roots of det A(z) from an independent generalised eigenproblem, fn/xi map, NaN pattern. "
-    "distinct = (function, shape/sign/branch) keys"
+    "numerator amplitudes 1e-8..1e8; after the extraction the coefficient lists must be unchanged (the denominator that "
+    "accompanies the poles is the one judged) and a second extraction identical; every modelled function must leave its "
+    "arguments untouched; class layer: algorithms.pLSCF via SingleSetup with random non-default parameters and data "
+    "amplitudes 1e-8..1e8 — stored Ad/Bn are pLSCF(result.Sy), stored poles are poles of that model, data untouched, "
+    "second object and second run identical. distinct = (function, shape/sign/branch) keys"
 )
 EXTRA_TRUSTED = [
     "np.linalg.eig (its recorded output is a parameter of the ac2mp_poly model), np.log, float sqrt/abs, 2*pi",
@@ -138,11 +142,16 @@ def _corr_rmfd2ac(ctx, pl):
             Ad[-1][:, 0] = 0.0
         inp = {"Ad": _stack(Ad), "Bn": _stack(Bn)}
         mod = ctx.model("plscf_rmfd2ac", **inp)
+        Ad_in, Bn_in = Ad.copy(), Bn.copy()
         try:
             A, C = pl.rmfd2ac(Ad, Bn)
             raised = None
         except np.linalg.LinAlgError as e:
             raised = str(e)
+        # the model is a pure function of its arguments: so must the code be
+        ctx.corr("rmfd2ac[inputs kept]", np.array_equal(Ad, Ad_in) and np.array_equal(Bn, Bn_in), inp,
+                 "unchanged", {"Ad": Ad.tolist(), "Bn": Bn.tolist()}, None)
+        Ad, Bn = Ad_in, Bn_in
         pairs = min(nA, nB) - 1
         key = (kind, m, l, nA, nB)
         ctx.count(f"rmfd2ac_{kind}")
@@ -219,8 +228,11 @@ def _corr_ac2mp(ctx, pl):
         method = rng.choice(["per", "cor"])
         nxseg = rng.choice([64, 128, 1000, 1024])
         store = []
+        A_in, C_in = A.copy(), C.copy()
         with _Patch(np.linalg, "eig", _eig_recorder(store)):
             fn, xi, phi, lam_c = pl.ac2mp_poly(A, C, dt, method, nxseg)
+        ctx.corr("ac2mp_poly[inputs kept]", np.array_equal(A, A_in) and np.array_equal(C, C_in), None, "unchanged", None, None)
+        A, C = A_in, C_in
         if len(store) != 1:
             ctx.corr("ac2mp_poly", False, {"note": "eig call count"}, None, len(store), None)
             continue
@@ -357,11 +369,15 @@ def _corr_pad(ctx, pl):
             return f
 
         raised = None
+        Ad_in = [a.copy() for a in Ad]
+        Bn_in = [b.copy() for b in Bn]
         with _Patch(pl, "ac2mp_poly", wrap):
             try:
                 Fn, Xi, Phi, Lam = pl.pLSCF_poles(Ad, Bn, dt, method, 256)
             except ValueError as e:
                 raised = str(e)
+        ctx.corr("pLSCF_poles[inputs kept]", _same_arrays(Ad, Ad_in) and _same_arrays(Bn, Bn_in),
+                 {"orders": orders, "m": m}, "unchanged", None, None)
         cols = [_col_json(*r) for r in rec]
         inp = {"cols": cols}
         mod = ctx.model("plscf_pad", **inp)
@@ -424,7 +440,9 @@ def _corr_plscf(ctx, pl):
             Sy, _ = _spectrum(A, B, Om)
             kind = "rational"
         Sy = np.round(Sy * 2**20) / 2**20  # short dyadic values keep the exact arithmetic small
+        Sy_in = Sy.copy()
         Ad, Bn = pl.pLSCF(Sy, dt, n, sgn)
+        ctx.corr("pLSCF[inputs kept]", np.array_equal(Sy, Sy_in), {"n": n, "Nch": Nch, "Nref": Nref}, "unchanged", None, None)
         inp = {
             "n": n,
             "hi": sgn == 1,
@@ -500,6 +518,8 @@ def _design_cond(Sy, Om, n, c):
         rows.append(np.hstack([blk, Y[:, keep]]))
     D = np.vstack(rows)
     D = np.vstack([D.real, D.imag])
+    # columns equilibrated: the fit is invariant under a common amplitude of the spectrum
+    D = D / np.maximum(np.linalg.norm(D, axis=0), 1e-300)
     s = np.linalg.svd(D, compute_uv=False)
     return s[0] / max(s[-1], 1e-300)
 
@@ -527,6 +547,17 @@ def _true_roots(A):
     return w, max(kap) if kap else 1.0
 
 
+def _same_arrays(xs, ys):
+    """bitwise equality (NaN == NaN) of two lists of arrays"""
+    if len(xs) != len(ys):
+        return False
+    for x, y in zip(xs, ys):
+        x, y = np.asarray(x), np.asarray(y)
+        if x.shape != y.shape or not np.array_equal(x, y, equal_nan=True):
+            return False
+    return True
+
+
 def _judge(ctx, pl, A, B, dt, sgn, Nf, extra, tag):
     """one oracle case; returns nothing, records violations"""
     n = A.shape[0] - 1
@@ -548,6 +579,7 @@ def _judge(ctx, pl, A, B, dt, sgn, Nf, extra, tag):
     ctx.nontrivial.add(("oracle", n, Nch, Nref, int(sgn), extra))
     ctx.count(f"oracle_order_{n}")
     ctx.count(f"oracle_sgn_{int(sgn)}")
+    Sy_in = Sy.copy()
     try:
         Ad, Bn = pl.pLSCF(Sy, dt, n + extra, sgn)
     except np.linalg.LinAlgError:
@@ -565,6 +597,9 @@ def _judge(ctx, pl, A, B, dt, sgn, Nf, extra, tag):
         except np.linalg.LinAlgError:
             ctx.violation("raises-at-order-n", f"{tag}: pLSCF raises LinAlgError with ordmax = n = {n} on a well-conditioned rational spectrum", inp)
             return
+    if not np.array_equal(Sy, Sy_in):
+        ctx.violation("input-modified-pLSCF", f"{tag}: pLSCF modified the spectral matrix handed to it", inp)
+        return
     Ai = np.linalg.inv(A[c])
     At = np.array([A[k] @ Ai for k in range(n + 1)])
     Bt = np.array([B[k] @ Ai for k in range(n + 1)])
@@ -585,10 +620,30 @@ def _judge(ctx, pl, A, B, dt, sgn, Nf, extra, tag):
             inp, observed=Bn[n - 1].tolist(), expected=Bt.tolist(),
         )
         return
+    Ad_in = [np.array(a, copy=True) for a in Ad]
+    Bn_in = [np.array(b, copy=True) for b in Bn]
     try:
         Fn, Xi, Phi, Lam = pl.pLSCF_poles(Ad, Bn, dt, "per", 256)
     except np.linalg.LinAlgError:
         ctx.skipped += 1
+        return
+    # the order-n model that accompanies the reported poles is still the one pLSCF returned:
+    # the extraction must not touch the coefficient lists it was handed ...
+    if not (_same_arrays(Ad, Ad_in) and _same_arrays(Bn, Bn_in)):
+        eA2 = max_rel_err(Ad[n - 1], At) if Ad[n - 1].shape == At.shape else float("inf")
+        ctx.violation(
+            "input-modified-pLSCF_poles",
+            f"{tag}: pLSCF_poles modified the coefficient lists handed to it (order-{n} denominator now differs from the "
+            f"normalised truth by {eA2:.2e})", inp, observed=np.asarray(Ad[n - 1]).tolist(), expected=At.tolist(),
+        )
+        return
+    # ... and extracting the poles again from the same model gives the same tables
+    try:
+        again = pl.pLSCF_poles(Ad, Bn, dt, "per", 256)
+    except np.linalg.LinAlgError:
+        again = None
+    if again is None or not _same_arrays([Fn, Xi, Phi, Lam], list(again)):
+        ctx.violation("second-extraction-differs", f"{tag}: a second pLSCF_poles call on the same (Ad, Bn) reports other poles", inp)
         return
     col = n - 1
     lam_true = np.log(z) / dt
@@ -668,6 +723,9 @@ def oracle(ctx, scale):
         sgn = rng.choice([-1, 1])
         extra = rng.choice([0, 0, 1, 2])
         A, B = _gen_AB(g, n, Nch, Nref, spread=rng.choice([0.4, 0.6, 0.9]))
+        if rng.random() < 0.4:  # the spectrum's amplitude is free: numerator far from unit size
+            B = B * 10 ** rng.uniform(-8, 8)
+            ctx.count("oracle_amplitude_scaled")
         _judge(ctx, pl, A, B, dt, sgn, Nf, extra, "random")
     # structured: scalar-diagonal denominators with prescribed roots (known stable / unstable split)
     for _ in range(ctx.n(80, 800) * scale):
@@ -693,6 +751,97 @@ def oracle(ctx, scale):
         B = g.standard_normal((n + 1, Nref, Nch))
         Nf = 4 * (n + 1) + rng.randint(0, 30)
         _judge(ctx, pl, A, B, 10 ** rng.uniform(-3, 0), rng.choice([-1, 1]), Nf, rng.choice([0, 1]), "prescribed-roots")
+    _class_oracle(ctx, pl, scale)
+
+
+# ----------------------------------------------------------------------------- class layer
+def _class_signal(seed, nch, n, fs, amp):
+    g = np.random.default_rng(seed)
+    y = np.zeros((n, nch))
+    for _ in range(int(g.integers(1, 4))):
+        f = g.uniform(0.05, 0.4) * fs
+        xi = float(g.choice([0.005, 0.02, 0.06]))
+        r = math.exp(-2 * math.pi * f * xi / fs)
+        th = 2 * math.pi * f * math.sqrt(1 - xi * xi) / fs
+        e = g.standard_normal(n)
+        x = np.zeros(n)
+        for k in range(2, n):
+            x[k] = 2 * r * math.cos(th) * x[k - 1] - r * r * x[k - 2] + e[k]
+        y += np.outer(x / max(np.abs(x).max(), 1e-300), g.standard_normal(nch))
+    y += 0.05 * g.standard_normal((n, nch))
+    return amp * y
+
+
+def _class_case(ctx, pl, params=None):
+    """algorithms.pLSCF through SingleSetup with non-default parameters: the coefficient lists stored in the
+    result (next to the pole tables) are the model pLSCF returns for the stored spectrum, the stored pole
+    tables are a subset (hard criteria only blank) of the poles of exactly that model, the caller's data are
+    untouched, and a second run / a second object gives the same result."""
+    from pyoma2.algorithms.plscf import pLSCF
+    from pyoma2.setup import SingleSetup
+
+    rng = ctx.rng
+    if params is None:
+        params = {
+            "seed": rng.getrandbits(32), "fs": rng.choice([10.0, 64.0, 200.0]), "nch": rng.randint(2, 3),
+            "n": rng.randint(500, 900), "amp": 10 ** rng.uniform(-8, 8), "ordmax": rng.randint(3, 7),
+            "nxseg": rng.choice([64, 100, 128]), "method_SD": rng.choice(["per", "cor"]), "pov": rng.choice([0.0, 0.5, 0.75]),
+        }
+    inp = dict(params)
+    fs, nch, n, amp = params["fs"], params["nch"], params["n"], params["amp"]
+    kw = {k: params[k] for k in ("ordmax", "nxseg", "method_SD", "pov")}
+    data = _class_signal(params["seed"], nch, n, fs, amp)
+    data_in = data.copy()
+    kw = dict(ordmax=rng.randint(3, 7), nxseg=rng.choice([64, 100, 128]), method_SD=rng.choice(["per", "cor"]),
+              pov=rng.choice([0.0, 0.5, 0.75]))
+    sgn = -1 if kw["method_SD"] == "per" else 1
+    setup = SingleSetup(data, fs=fs)
+    a = pLSCF(name="a", **kw)
+    b = pLSCF(name="b", **kw)
+    setup.add_algorithms(a, b)
+    setup.run_by_name("a")
+    ctx.oracle_cases += 1
+    ctx.count(f"class_runs_{kw['method_SD']}")
+    ctx.nontrivial.add(("class", kw["method_SD"], kw["ordmax"], nch))
+    ra = a.result
+    Ad_a = [np.array(x, copy=True) for x in ra.Ad]
+    Bn_a = [np.array(x, copy=True) for x in ra.Bn]
+    if not np.array_equal(data, data_in):
+        ctx.violation("class-data-modified", "pLSCF.run modified the data handed to the setup", inp)
+        return
+    # stored model == what pLSCF returns for the stored spectrum (same function, same input: 1e-12)
+    Ad_f, Bn_f = pl.pLSCF(np.array(ra.Sy, copy=True), 1 / fs, kw["ordmax"], sgn)
+    worst = max([max_rel_err(x, y) for x, y in zip(ra.Ad, Ad_f)] + [max_rel_err(x, y) for x, y in zip(ra.Bn, Bn_f)])
+    if len(ra.Ad) != kw["ordmax"] or worst > 1e-12:
+        ctx.violation(
+            "class-stored-model", f"pLSCF.run: result.Ad/Bn are not the coefficient lists pLSCF returns for result.Sy "
+            f"(rel diff {worst:.2e}, method_SD={kw['method_SD']})", inp,
+        )
+        return
+    # stored poles ⊆ poles of the stored model
+    Fn_f, Xi_f, _, _ = pl.pLSCF_poles(Ad_f, Bn_f, 1 / fs, kw["method_SD"], kw["nxseg"])
+    Fr, Xr = np.asarray(ra.Fn_poles, float), np.asarray(ra.Xi_poles, float)
+    ok = Fr.shape == Fn_f.shape
+    if ok:
+        m = ~np.isnan(Fr)
+        ok = bool(np.allclose(Fr[m], Fn_f[m], rtol=1e-9, atol=0) and np.allclose(Xr[m], Xi_f[m], rtol=1e-9, atol=1e-12))
+    if not ok:
+        ctx.violation("class-stored-poles", "pLSCF.run: a stored pole is not a pole of the stored model (Ad, Bn)", inp)
+        return
+    # second object in the same session, then the first one again
+    setup.run_by_name("b")
+    setup.run_by_name("a")
+    for tag, r2 in (("second object", b.result), ("second run", a.result)):
+        same = _same_arrays(list(r2.Ad) + list(r2.Bn) + [np.asarray(r2.Fn_poles, float), np.asarray(r2.Xi_poles, float)],
+                            Ad_a + Bn_a + [Fr, Xr])
+        if not same:
+            ctx.violation("class-rerun-differs", f"pLSCF.run: {tag} with identical parameters and data gives another result", inp | {"which": tag})
+            return
+
+
+def _class_oracle(ctx, pl, scale):
+    for _ in range(ctx.n(6, 120) * scale):
+        _class_case(ctx, pl)
 
 
 def replay(rec):
@@ -715,6 +864,12 @@ def replay(rec):
             print("VIOLATION reproduced:", sig, "-", what)
 
     c = C()
+    if "method_SD" in inp:
+        import random
+
+        c.rng = random.Random(0)
+        _class_case(c, pl, {k: v for k, v in inp.items() if k != "which"})
+        return 1 if c.vs else 0
     _judge(c, pl, np.array(inp["A"], float), np.array(inp["B"], float), inp["dt"], inp["sgn"], inp["Nf"], inp["ordmax"] - (len(inp["A"]) - 1), "replay")
     if not c.vs:
         print("not reproduced (skipped by guard)" if c.skipped else "not reproduced")
